@@ -106,6 +106,14 @@ func (r *runner) run(stream string, d *dg.Design, ms *MetaSpec, strict bool) {
 	r.res.Count("accepted_" + stream)
 	md := extractModel()
 	c := &ctx{md: md, counts: r.res.Dist, hidden: map[string]bool{}}
+	c.absSvc = map[string]bool{}
+	if d.BasePath != "" && d.BasePath != "/" {
+		for _, sv := range d.Services {
+			if strings.HasPrefix(sv.BasePath, "//") {
+				c.absSvc[sv.Name] = true
+			}
+		}
+	}
 	// what the documents must list: the mounted operations the description does not mark
 	// openapi:generate=false (decided from the description, not from goa's expressions)
 	var visible []Op
@@ -124,6 +132,13 @@ func (r *runner) run(stream string, d *dg.Design, ms *MetaSpec, strict bool) {
 	for _, s := range md.Services {
 		for _, e := range s.Endpoints {
 			r.res.Count("endpoints")
+			for _, rt := range e.Routes {
+				for _, p := range rt.Paths {
+					if b := md.APIBase; !rt.Abs && b != "" && b != "/" && p != b && !strings.HasPrefix(p, strings.TrimSuffix(b, "/")+"/") {
+						r.res.Count("hypothesis_rooted_violated")
+					}
+				}
+			}
 			if e.Multipart && !e.Body {
 				r.res.Count("hypothesis_multipart_has_body_violated")
 			}
@@ -289,13 +304,14 @@ func (r *runner) run(stream string, d *dg.Design, ms *MetaSpec, strict bool) {
 	st, ok2 := in.coqOps(g.ServerOps, md.Schemes, false)
 	t3, ok3 := in.coqOps(ops3, md.Schemes, true)
 	t2, ok4 := in.coqOps(ops2, md.Schemes, true)
-	if !(ok1 && ok2 && ok3 && ok4) {
+	wt, ok5 := in.coqWritten(docs["openapi2"].j)
+	if !(ok1 && ok2 && ok3 && ok4 && ok5) {
 		r.res.Count("not_sent_to_model:outside_tokenisation")
 		return
 	}
 	idx := r.ordinal
 	r.cases = append(r.cases, caseInfo{idx, stream, d, ms})
-	fmt.Fprintf(&r.lines, "(%d%%nat, %s, %s, %s, %s)\n", idx, dt, st, t3, t2)
+	fmt.Fprintf(&r.lines, "(%d%%nat, %s, %s, %s, %s, %s)\n", idx, dt, st, t3, t2, wt)
 	r.nModel++
 	if idx%37 == 3 {
 		r.res.Sample(map[string]any{"stream": stream, "model_design": md, "server_ops": g.ServerOps, "openapi3_ops": ops3}, 3)
